@@ -28,13 +28,21 @@ def coq_tree(field):
 
 def coq_case(line):
     op, a, r = D.split_line(line)
-    if len(line) > 2500:
+    if len(line) > (6000 if op == "gcmulti" else 2500):
         return None
     if op == "gc":
         fl, size, tree = a
         return ("(run_gc %s %s %s (%s)%%Z %s)" % (
             "true" if fl == "mirror" else "false", "false" if size == "-" else "true",
             "true" if size == "skip" else "false", "0" if size in ("-", "skip") else size, coq_tree(tree)), r)
+    if op == "gcmulti":
+        ts = []
+        for k in range(0, len(a) - 2, 3):
+            fl, size, tree = a[k:k + 3]
+            ts.append("(%s, %s, %s, (%s)%%Z, %s)" % (
+                "true" if fl == "mirror" else "false", "false" if size == "-" else "true",
+                "true" if size == "skip" else "false", "0" if size in ("-", "skip") else size, coq_tree(tree)))
+        return ("(run_gcmulti [%s])" % "; ".join(ts), r)
     if op == "twpath":
         return ("(run_twpath %s)" % D.coq_bytes(a[0]), r)
     if op == "tilesize":
@@ -61,13 +69,13 @@ def main(tier, seed, replay):
     ncross = 0
     if hexe and mexe and bexe:
         if tier == "quick":
-            args = ["-seed=%d" % seed, "-bin=" + bexe, "-synth=60", "-real=6", "-paths=300", "-big"]
+            args = ["-seed=%d" % seed, "-bin=" + bexe, "-synth=60", "-real=6", "-paths=300", "-big", "-multi=10"]
         else:
-            args = ["-seed=%d" % seed, "-bin=" + bexe, "-synth=600", "-real=40", "-paths=3000", "-big"]
+            args = ["-seed=%d" % seed, "-bin=" + bexe, "-synth=600", "-real=40", "-paths=3000", "-big", "-multi=120"]
         extra = []
         if replay:
             extra = [[l.strip() for l in open(replay) if "|=>|" in l]]
-            args = ["-seed=%d" % seed, "-bin=" + bexe, "-synth=0", "-real=0", "-paths=0", "-nofixed"]
+            args = ["-seed=%d" % seed, "-bin=" + bexe, "-synth=0", "-real=0", "-paths=0", "-multi=0", "-nofixed"]
         corpus = os.path.join(L.VERIF, "corpus", PROP)
         if os.path.isdir(corpus):
             for f in sorted(os.listdir(corpus)):
@@ -76,11 +84,13 @@ def main(tier, seed, replay):
         st, work, mlines = D.differential(res, PROP, hexe, args, mexe, property_ops=(), extra_inputs=extra, timeout=2400)
         rnd = random.Random(seed)
         small = [c for c in (coq_case(l) for l in mlines) if c]
-        gcs = [c for c in small if c[0].startswith("(run_gc")]
+        gcs = [c for c in small if c[0].startswith("(run_gc ")]
+        multis = [c for c in small if c[0].startswith("(run_gcmulti")]
         others = [c for c in small if not c[0].startswith("(run_gc")]
         sample = rnd.sample(gcs, min(len(gcs), 12 if tier == "quick" else 60)) + \
+                 rnd.sample(multis, min(len(multis), 3 if tier == "quick" else 20)) + \
                  rnd.sample(others, min(len(others), 50 if tier == "quick" else 300))
-        ncross = D.vm_crosscheck(res, PROP, sample, "From SL Require Import GC.Model.")
+        ncross = D.vm_crosscheck(res, PROP, sample, "From SL Require Import GC.Model GC.Multi.")
     if not ok and not res.violations:
         res.violation(getattr(res, "coq_failure", L.write_replay(PROP, "coq_failure.txt", "proof stage failed")),
                       "theorems of %s no longer check; differential run and monitors found no failing input" % PROP_V, no_input=True)
@@ -88,6 +98,16 @@ def main(tier, seed, replay):
         print("# note: the Coq proof stage also failed: %s" % getattr(res, "coq_failure", "?"))
     gc_lines = [l for l in work if l.startswith("gc|")]
     removing = [l for l in gc_lines if not l.endswith(":")]
+    multi_lines = [l for l in work if l.startswith("gcmulti|")]
+    multi_shapes = {}
+    multi_later_smaller = 0
+    for l in multi_lines:
+        op, a, r = D.split_line(l)
+        shape = ",".join("%s:%s" % (a[k], a[k + 1]) for k in range(0, len(a) - 2, 3))
+        multi_shapes[shape] = r.split(":")[0]
+        szs = [int(a[k + 1]) for k in range(0, len(a) - 2, 3) if a[k + 1].isdigit()]
+        if any(szs[i] > szs[j] for i in range(len(szs)) for j in range(i + 1, len(szs))):
+            multi_later_smaller += 1
     statuses = {}
     sizes = {}
     for l in gc_lines:
@@ -97,10 +117,12 @@ def main(tier, seed, replay):
     cov.update({
         "evaluations": st.get("lines", 0),
         "distinct_nontrivial": len(set(removing)),
-        "rule": "cases = runs of the unmodified partial-aftersun binary on a directory (gc lines: real sequencer histories over LocalBackend+SQLite at tree sizes around tile boundaries incl. 65535..65537, cleaned mid-history and at the end, lock-ahead-of-storage states by failed checkpoint/tile uploads and by checkpoint rollback, planted leftovers; witness-mirror directories with real hash tiles; synthetic log/mirror directories with tiles around the right edge of every level in every leftover state and one directory per error/panic class), torchwood.ParseTilePath cases and tile-size expression cases; distinct = distinct harness lines; non-trivial = gc runs that removed at least one entry",
+        "rule": "cases = runs of the unmodified partial-aftersun binary on a directory (gc lines: real sequencer histories over LocalBackend+SQLite at tree sizes around tile boundaries incl. 65535..65537, cleaned mid-history and at the end, lock-ahead-of-storage states by failed checkpoint/tile uploads and by checkpoint rollback, planted leftovers; witness-mirror directories with real hash tiles; synthetic log/mirror directories with tiles around the right edge of every level in every leftover state and one directory per error/panic class; multi-tree runs: ONE run of the binary over a config with 2-3 logs and/or a witness directory with 1-3 mirrored logs, real trees (published 300 with uploads to 600, 520/770, 1000, mirrors 300 of 600, 700 of 800, 1300) in every size order and synthetic ones with partial+full coexisting at each tree's published right edge; every tree of such a run gets its own gc line (model applied to that directory alone), mon_only/mon_unchanged/mon_edge_kept and the audits, the run as a whole a gcmulti line (GC/Multi.v clean_run) and mon_outside), torchwood.ParseTilePath cases and tile-size expression cases; distinct = distinct harness lines; non-trivial = gc runs that removed at least one entry",
         "traces_validated_against_impl": len(work), "distinct_cases": len(set(work)),
         "gc_runs": len(gc_lines), "gc_runs_removing": len(removing),
         "gc_status_distribution": statuses,
+        "multi_tree_runs": len(multi_lines), "multi_tree_runs_with_a_later_smaller_tree": multi_later_smaller,
+        "multi_tree_run_shapes": multi_shapes,
         "gc_tree_sizes": dict(sorted(sizes.items(), key=lambda kv: -kv[1])[:40]),
         "impl_property_monitors": st.get("monitors", 0), "monitor_failures": st.get("monitor_failures", 0),
         "model_impl_differences": st.get("diffs", 0), "vm_compute_crosschecked": ncross,
@@ -111,7 +133,7 @@ def main(tier, seed, replay):
         "trusted_base": ["Coq 8.16.1 kernel (coqc, vm_compute for Examples and the per-run cross-check)",
                          "extraction (ExtrOcamlBasic only) + ocaml/util.ml + ocaml/gc.ml (tree parser)",
                          "Go harness harness/gc (directory snapshots before/after, scenario construction, independent monitors)",
-                         "model GC/Model.v is a hand transcription of cleanDir/overrideImmutable/main's level loop and of torchwood.ParseTilePath, tied by the differential run above; os.Root, fs.ReadDir order, the kernel's unlink/rmdir and the immutable-flag ioctl are specified, not modelled; symbolic links and concurrent writers are outside the model",
+                         "model GC/Model.v is a hand transcription of cleanDir/overrideImmutable/main's level loop and of torchwood.ParseTilePath, GC/Multi.v of main's loops over logs and mirrors (stateless between directories: theorems C18_run_*), tied by the differential run above; os.Root, fs.ReadDir order, the kernel's unlink/rmdir and the immutable-flag ioctl are specified, not modelled; symbolic links and concurrent writers are outside the model",
                          "repo " + L.repo_rev()],
     })
     return res.finish(cov, ["fs.ReadDir returns the entries sorted by name and os.Root resolves plain relative paths (specified; the differential run holds the binary to it)",
